@@ -98,6 +98,7 @@ type Explorer struct {
 	env       map[string]value
 	interp    *interpreter
 	steps     int
+	violated  bool
 	MaxViolPerLabel int
 	MaxSamples      int
 }
@@ -116,6 +117,7 @@ func (e *Explorer) resetPath() {
 	e.mapOrder = true
 	e.inconcl = false
 	e.steps = 0
+	e.violated = false
 }
 
 func (e *Explorer) declare(name, sort string) string {
@@ -438,6 +440,7 @@ func (e *Explorer) model() map[string]string {
 }
 
 func (e *Explorer) recordViolation(label string, script map[string]string, pmsg string, stack []string) {
+	e.violated = true
 	if e.res.ViolCount == nil {
 		e.res.ViolCount = map[string]int{}
 	}
